@@ -8,8 +8,8 @@ The object is a state machine:
   `vals`     the attribute dictionary        (`none` = Python `None`)
   `built`    what `init_modules` created (the submodules / buffers), if it ran
   `fired`    how many times `init_modules` ran
-`init : (Attr → Option V) → Option B` is the subclass's `init_modules` as a function of the attribute
-values; `none` = it raises (e.g. the NA-strategy validation of `StypeEncoder.init_modules`).
+`init : List (Option V) → Option B` is the subclass's `init_modules` as a function of the attribute
+values (listed in the order of `Attr.all`); `none` = it raises (e.g. the NA-strategy validation of `StypeEncoder.init_modules`).
 Every transition returns `Option`: `none` = the Python statement raises.
 -/
 namespace TFVerif.Lazy
@@ -18,6 +18,8 @@ namespace TFVerif.Lazy
 inductive Attr where
   | outChannels | statsList | stype | postModule | naStrategy
 deriving DecidableEq, Repr, Inhabited
+
+def Attr.all : List Attr := [.outChannels, .statsList, .stype, .postModule, .naStrategy]
 
 /-- `StypeEncoder.LAZY_ATTRS` -/
 def lazyAttrs : List Attr := [.outChannels, .statsList, .stype]
@@ -35,13 +37,13 @@ variable {V B : Type}
 def validate (m : Mod V B) : Option Unit := if m.missing.isEmpty then some () else none
 
 /-- `Module._init_modules`: `validate()` then the subclass's `init_modules()` -/
-def initModules (init : (Attr → Option V) → Option B) (m : Mod V B) : Option (Mod V B) := do
+def initModules (init : List (Option V) → Option B) (m : Mod V B) : Option (Mod V B) := do
   validate m
-  let b ← init m.vals
+  let b ← init (Attr.all.map m.vals)
   pure { m with built := some b, fired := m.fired + 1 }
 
 /-- `Module.__setattr__(key, value)` -/
-def setattr (init : (Attr → Option V) → Option B) (m : Mod V B) (k : Attr) (v : Option V) :
+def setattr (init : List (Option V) → Option B) (m : Mod V B) (k : Attr) (v : Option V) :
     Option (Mod V B) :=
   -- super().__setattr__(key, value)
   let m := { m with vals := fun k' => if k' = k then v else m.vals k' }
@@ -53,7 +55,7 @@ def setattr (init : (Attr → Option V) → Option B) (m : Mod V B) (k : Attr) (
   else some m
 
 /-- a sequence of attribute assignments -/
-def setattrs (init : (Attr → Option V) → Option B) (m : Mod V B) :
+def setattrs (init : List (Option V) → Option B) (m : Mod V B) :
     List (Attr × Option V) → Option (Mod V B)
   | [] => some m
   | (k, v) :: rest => (setattr init m k v).bind fun m' => setattrs init m' rest
@@ -64,7 +66,7 @@ def fresh : Mod V B :=
 
 /-- `Module.__init__(*args)`: assign every constructor argument with `_in_init = True`, then
     `if self.is_fully_specified: self._init_modules()` -/
-def construct (init : (Attr → Option V) → Option B) (args : List (Attr × Option V)) :
+def construct (init : List (Option V) → Option B) (args : List (Attr × Option V)) :
     Option (Mod V B) := do
   let m ← setattrs init fresh args
   let m := { m with inInit := false }
